@@ -150,6 +150,19 @@ ScanFn(ix, D) ==
         ix1 == AnalyzeDiskSeq(ix, D, SetToSeqIx(p1))
     IN  ScanImports(ix1, D, { f \in Files : ix1.cached[f] # NoMod /\ RoleOf[f] \in {"conftest", "test"} }, {})
 
+(* detect_fixture_cycles as far as caching is concerned: the NAMES that lie on a cycle of the name-level   *)
+(* dependency graph (first registered definition of every name; the step-by-step DFS with its reported    *)
+(* paths is DepGraphs.tla).  The value is cached in cycle_cache under the definitions version.            *)
+NameEdges(ix) ==
+    [n \in IndexNames(ix) |->
+        IF ix.defs[n] = <<>> THEN {}
+        ELSE { ix.defs[n][1].deps[j] : j \in 1..Len(ix.defs[n][1].deps) } \cap { m \in IndexNames(ix) : ix.defs[m] # <<>> }]
+RECURSIVE ReachNames(_, _, _)
+ReachNames(E, frontier, seen) ==
+    IF frontier = {} THEN seen
+    ELSE LET nxt == UNION { E[n] : n \in frontier } IN ReachNames(E, nxt \ seen, seen \cup nxt)
+ImplCycleNames(ix) == LET E == NameEdges(ix) IN { n \in IndexNames(ix) : n \in ReachNames(E, {n}, {}) }
+
 (* get_file_content: cache, else disk *)
 ContentOf(ix, f) == IF ix.cached[f] # NoMod THEN ix.cached[f] ELSE ix.disk[f]
 Known(ix, f) == f # NoFile /\ (ix.cached[f] # NoMod \/ ix.disk[f] # NoMod)
